@@ -579,6 +579,9 @@ int main(int argc, char** argv)
         parse("n:add.a.1+add.b.2+add.c.3;rp.T.0,rp.T.0;fp.T.0,fp.e3.0,drop;rp.e2.0,get"),
         parse("n:addt.a.1.0+addt.b.2.0;fpt.T.0.0,rp.T.2;cp.a.c,chk.c.0,rm.a;rp.T.1,aty.b.1,fpt.e2.0.1"),
         parse("n;add.a.1,cp.a.b,rm.a;find.b,find.a,drop;rp.e1.0,rp.e1.0"),
+        // copy of a tagged object racing with removals of the copy's name: object and tags must appear / disappear together
+        parse("n:addt.a.1.0;cp.a.b,chk.b.0,cp.a.b,chk.b.0;rm.b,rm.b,chk.b.0,rm.b,addt.b.2.1,chk.b.1;rm.b,chk.b.0,rm.b"),
+        parse("n:addt.a.1.0+aty.a.1;cp.a.c,cp.a.d;rm.c,rm.d,rm.c,rm.d,chk.c.0,chk.d.1;rm.d,rm.c,chk.c.1,chk.d.0"),
         // destructor racing with the last calls
         parse("d:addt.a.1.0;dtor;rm.a"),
         parse("d:addt.a.1.0+addt.b.2.1;dtor;rm.a;rp.e2.0"),
